@@ -1926,7 +1926,11 @@ impl<'a> Socket<'a> {
             // reason is TCP simultaneous open).
             (State::SynReceived, TcpControl::Rst) if self.listen_endpoint.port != 0 => {
                 tcp_trace!("received RST");
-                self.tuple = None;
+                // Forget everything about the aborted handshake (RTT estimator, peer MSS,
+                // window scale, what was advertised, ...): the next SYN is a new connection.
+                let listen_endpoint = self.listen_endpoint;
+                self.reset();
+                self.listen_endpoint = listen_endpoint;
                 self.set_state(State::Listen);
                 return None;
             }
